@@ -47,6 +47,7 @@ class Job:
         self.inst = inst          # type instantiation text
         self.bounds = bounds      # free text of the bound of this obligation
         self.expect_fail = list(expect_fail)  # regexes: a failing check matching each must exist (must-panic)
+        self.genfile = None       # generated file the harness lives in when it is not gen_<feature>.rs
 
 
 class Result:
@@ -431,10 +432,10 @@ def playback_env(release_like):
 
 
 def native_replay(hk_dir, feature, module, test_name, test_src, profiles=("dev", "release"),
-                  features=None):
+                  features=None, genfile=None):
     """Insert the playback unit test into the harness module and run it natively.
     Returns {profile: (reproduced: bool, message)}."""
-    modfile = os.path.join(hk_dir, "src", "gen_%s.rs" % feature)
+    modfile = os.path.join(hk_dir, "src", genfile or ("gen_%s.rs" % feature))
     marker = "// ---- playback tests\n"
     s = open(modfile).read()
     if marker in s:
